@@ -165,6 +165,7 @@ namespace c10
         auto& ret = Op::cmpd(z, r);
         if (std::addressof(ret) != std::addressof(z)) io.flags |= F_RETREF;
         C10_ALIAS_OUT(z)
+        io.stor[0] = r.real(); io.stor[1] = r.imag();     // the closure still sees z's parts
     }
     // r OP= z, r a reference closure over the parts of the value z
     template <class T, class Op, bool B1, bool B2>
@@ -175,6 +176,7 @@ namespace c10
         auto& ret = Op::cmpd(r, z);
         if (std::addressof(ret) != std::addressof(r)) io.flags |= F_RETREF;
         C10_ALIAS_OUT(z)
+        io.stor[0] = r.real(); io.stor[1] = r.imag();
     }
     // r OP= r2, two distinct closures over the same storage
     template <class T, class Op, bool B1, int K2, bool B2>
